@@ -171,16 +171,25 @@ fn create_diagnostic(err: &SplError, text: &str) -> Diagnostic {
 pub fn as_position(index: usize, text: &str) -> Position {
     let mut line = 0;
     let mut character = 0;
-    for (i, c) in text.char_indices() {
+    let mut chars = text.char_indices().peekable();
+    while let Some((i, c)) = chars.next() {
         if i == index {
             break;
         }
-        if c == '\n' {
-            line += 1;
-            character = 0;
-        } else {
+        match c {
+            '\n' => {
+                line += 1;
+                character = 0;
+            }
+            // LSP line terminators are `\n`, `\r\n` and `\r`
+            '\r' => {
+                if !matches!(chars.peek(), Some((_, '\n'))) {
+                    line += 1;
+                    character = 0;
+                }
+            }
             // LSP columns count UTF-16 code units
-            character += c.len_utf16() as u32;
+            c => character += c.len_utf16() as u32,
         }
     }
     Position { line, character }
@@ -210,17 +219,28 @@ fn as_index_range(pos_range: &PosRange, text: &str) -> TextRange {
 pub fn get_insertion_index(position: &Position, text: &str) -> usize {
     let mut line = 0;
     let mut character = 0;
-    for (i, c) in text.char_indices() {
+    let mut chars = text.char_indices().peekable();
+    while let Some((i, c)) = chars.next() {
         // a column behind the end of the line means the end of that line
-        if line == position.line && (character >= position.character || c == '\n') {
+        if line == position.line
+            && (character >= position.character || c == '\n' || c == '\r')
+        {
             return i;
         }
-        if c == '\n' {
-            line += 1;
-            character = 0;
-        } else {
+        match c {
+            '\n' => {
+                line += 1;
+                character = 0;
+            }
+            // LSP line terminators are `\n`, `\r\n` and `\r`
+            '\r' => {
+                if !matches!(chars.peek(), Some((_, '\n'))) {
+                    line += 1;
+                    character = 0;
+                }
+            }
             // LSP columns count UTF-16 code units
-            character += c.len_utf16() as u32;
+            c => character += c.len_utf16() as u32,
         }
     }
     text.len()
